@@ -666,7 +666,7 @@ def _typ_syntax(ctx, index, rule="C14.typsyntax"):
                     lst = getattr(par, field, None)
                     if isinstance(lst, list) and cur in lst:
                         before = lst[: lst.index(cur)]
-                        if isinstance(par, ast.Try) and field in ("orelse", "finalbody"):
+                        if isinstance(par, ast.Try) and field == "orelse":
                             # try: eval(typ) / except ...: / else: store — the `else` arm runs after the whole try body succeeded
                             before = list(par.body) + before
                         for prev in before:
